@@ -297,7 +297,11 @@ class Real(object):
 
     def start(self, task, route, item=-1, delay=0):
         key = (task, route, item)
-        first = statuses.DELAYED if (self.use_delayed and isinstance(delay, int) and delay > 0) else statuses.RUNNING
+        first = statuses.RUNNING
+        if self.use_delayed and isinstance(delay, int) and delay > 0:
+            first = statuses.DELAYED
+        elif self.use_delayed == "all":
+            first = statuses.REQUESTED        # the provider acknowledges the request before the action runs
         rec = self.c.get_task_state_entry(task, route)
         fresh = rec is None or rec.get("status") in statuses.COMPLETED_STATUSES + ["retrying", None]
         if fresh:
@@ -390,8 +394,8 @@ class Real(object):
                     if f == "P" and (self.cyc.get((t, r, i)) or canceled):
                         continue
                     out.append([t, r, i, FATE[f]])
-            elif st == "delayed":
-                out.append([t, r, i, "running"])          # the delay has passed
+            elif st in ("delayed", "requested"):
+                out.append([t, r, i, "running"])          # the delay has passed / the action has begun
             elif st == "pending":
                 for f in fates:
                     if f in "sf":
